@@ -214,7 +214,16 @@ fn function<'t>(ctx: Context<'t>) -> ParseResult<'t, Expression> {
 /// Parse an expression until we reach a token with higher precedence.
 fn parse_precedence<'t>(ctx: Context<'t>, prec: Prec) -> ParseResult<'t, Expression> {
     // Initial value, e.g. a number value, assignable, ...
-    let (mut ctx, mut expr) = prefix(ctx)?;
+    let (ctx, expr) = prefix(ctx)?;
+    parse_precedence_after(ctx, expr, prec)
+}
+
+/// The rest of [parse_precedence]: `expr` is the initial value, `ctx` the context after it.
+fn parse_precedence_after<'t>(
+    mut ctx: Context<'t>,
+    mut expr: Expression,
+    prec: Prec,
+) -> ParseResult<'t, Expression> {
     while prec <= precedence(ctx.token()) {
         if !valid_infix(ctx) {
             break;
@@ -295,13 +304,7 @@ fn prefix<'t>(ctx: Context<'t>) -> ParseResult<'t, Expression> {
         T::Identifier(_) => {
             let span = ctx.span();
 
-            // Do some probing
-            let is_blob = match type_assignable(ctx) {
-                Ok((ctx, _)) => matches!(ctx.token(), T::LeftBrace),
-                _ => false,
-            };
-
-            if is_blob {
+            if starts_blob_instance(ctx) {
                 match blob(ctx) {
                     Ok(x) => Ok(x),
                     Err((ctx, errs)) => Err((skip_until!(ctx, T::RightBrace), errs)),
@@ -766,6 +769,22 @@ fn list<'t>(ctx: Context<'t>) -> ParseResult<'t, Expression> {
 
 pub fn expression<'t>(ctx: Context<'t>) -> ParseResult<'t, Expression> {
     parse_precedence(ctx, Prec::No)
+}
+
+/// Parse the rest of an expression whose initial value has been parsed already:
+/// `expression_after(ctx_after, value)` is `expression(ctx)` whenever the expression at
+/// `ctx` starts with `value` and `ctx_after` is the context after it.
+pub fn expression_after<'t>(ctx: Context<'t>, value: Expression) -> ParseResult<'t, Expression> {
+    parse_precedence_after(ctx, value, Prec::No)
+}
+
+/// Probe: does a blob instantiation (`A.B { .. }`) start here? (An identifier that starts
+/// an expression starts either that or an assignable.)
+pub fn starts_blob_instance<'t>(ctx: Context<'t>) -> bool {
+    match type_assignable(ctx) {
+        Ok((ctx, _)) => matches!(ctx.token(), T::LeftBrace),
+        _ => false,
+    }
 }
 
 // NOTE(ed): It's really hard to write good tests, Rust refuses to deref the boxes
